@@ -30,6 +30,7 @@ import Proofs.C02
 import Proofs.C02RoundTrip
 import Proofs.C02Project
 import Proofs.C02Q
+import Proofs.C02Regions
 
 namespace TM
 open C02
@@ -259,6 +260,73 @@ theorem C02_step_exclusive (cfg : NCfg) (hwf : cfg.states.WF = true) (sub : NSub
   simp only [List.length_nil, Nat.zero_add] at hb
   have hm : (grun cfg g seg').maxExec ≤ 1 := by omega
   exact ⟨seg', hl, hi, hclean hm, hm⟩
+
+/-! ### the sharp exclusion: transitions that are not local when they execute -/
+
+/-- **one trigger call, sharp form.**  A transition is LOCAL at the moment it executes (`localRef`, decidable on the
+ghost state): it is declared on the machine, its source is active and was not entered during the current event,
+nothing below its source was entered during the current event, and wherever an ancestor of the source (or the machine)
+has two or more active children the destination lies in the same child's branch as the source.  "Entered and
+afterwards exited within one event" can only rise if some transition that executes is NOT local at that moment
+(`nonLocalRun`) — which is exactly what the four open findings are: the source exited meanwhile, exited and
+re-entered, the same locally declared transition dispatched again, a destination in a sibling region.  Any number of
+transitions may execute in the event. -/
+theorem C02_step_regions (cfg : NCfg) (hwf : cfg.states.WF = true) (sub : NSub) (sc : Script)
+    (hR : NoRaise sc) (hC : NoCmds sc) (qmax ev : Nat) (s s' : NSt) (g : G) (hI : GI2 cfg g s.conf)
+    (h : (napiTrigger sub sc cfg qmax ev s).state? = some s') :
+    ∃ seg, s'.glog = s.glog ++ seg ∧ GI2 cfg (grun cfg g seg) s'.conf ∧ (grun cfg g seg).core = g.core ∧
+      ((grun cfg g seg).enteredThenExited = true → g.enteredThenExited = true ∨ nonLocalRun cfg g seg = true) := by
+  obtain ⟨seg, hl, hc⟩ := frame_apiTrigger2 cfg sub sc (RInv2 cfg) hR hC (rinv2_closed sub sc cfg hwf hR hC) qmax ev s s' h
+  exact ⟨seg, hl, hc g hI⟩
+
+/-- **every history, sharp form**: the ghost is clean after any history in which every executing transition was
+local at its moment -/
+theorem C02_history_regions (cfg : NCfg) (hwf : cfg.states.WF = true) (sc : Script) (hR : NoRaise sc) (hC : NoCmds sc)
+    (qmax fuel : Nat) (evs : List Nat) (s0 s' : NSt) (h0 : NSt.init cfg = some s0)
+    (h : nrunHistory sc cfg qmax fuel evs s0 = some s') :
+    GI2 cfg (grun cfg (G.init cfg s0.conf) s'.glog) s'.conf ∧
+    (nonLocalRun cfg (G.init cfg s0.conf) s'.glog = false → (grun cfg (G.init cfg s0.conf) s'.glog).clean = true) := by
+  obtain ⟨hI, hcl⟩ := C02_init cfg hwf s0 h0
+  have hI2 : GI2 cfg (G.init cfg s0.conf) s0.conf := ⟨hI, fun p hp => by simp [G.init] at hp⟩
+  obtain ⟨seg, hl, hc⟩ := frame_history2 cfg sc (RInv2 cfg) hR hC (fun sub => rinv2_closed sub sc cfg hwf hR hC)
+    qmax fuel evs s0 s' h
+  have hg0 : s0.glog = [] := by
+    simp only [NSt.init, Option.map_eq_some_iff] at h0
+    obtain ⟨f, _, rfl⟩ := h0; rfl
+  have hseg : s'.glog = seg := by
+    have : s'.view.glog = s0.view.glog ++ seg := hl
+    simpa [NSt.view, hg0] using this
+  obtain ⟨hi, hcore, hete⟩ := hc _ hI2
+  rw [hseg]
+  refine ⟨hi, fun hnl => ?_⟩
+  simp only [G.clean, Bool.and_eq_true, Bool.not_eq_true'] at hcl
+  obtain ⟨⟨⟨⟨⟨a1, a2⟩, a3⟩, a4⟩, a5⟩, a6⟩ := hcl
+  simp only [G.core, Prod.mk.injEq] at hcore
+  obtain ⟨b1, b2, b3, b4, b5⟩ := hcore
+  have hE : (grun cfg (G.init cfg s0.conf) seg).enteredThenExited = false := by
+    cases hx : (grun cfg (G.init cfg s0.conf) seg).enteredThenExited with
+    | false => rfl
+    | true =>
+      rcases hete hx with h1 | h1
+      · rw [a3] at h1; cases h1
+      · rw [hnl] at h1; cases h1
+  simp only [G.clean, Bool.and_eq_true, Bool.not_eq_true']
+  exact ⟨⟨⟨⟨⟨b1.trans a1, b2.trans a2⟩, hE⟩, b3.trans a4⟩, b4.trans a5⟩, b5.trans a6⟩
+
+/-- non-vacuity / sharpness: in the two-region machine below both region-local transitions execute in one event
+(`maxExec = 2`, outside `C02_step_clean`'s exclusion) and every one is local, so the ghost is clean; in the witness
+`c02Stale` the second transition is not local (its source is no longer active) -/
+def c02Regions : NCfg :=
+  { c02Stale with events := [(0, [{ source := [1, 2, 3], dest := some [1, 2] }, { source := [1, 4, 5], dest := some [1, 4, 6] }])] }
+
+example : ((NSt.init c02Regions).bind fun s0 => (nrunHistory c02Script c02Regions 8 2 [0] s0).map fun s =>
+      (buildStateList [] s.conf, (grun c02Regions (G.init c02Regions s0.conf) s.glog).maxExec,
+       nonLocalRun c02Regions (G.init c02Regions s0.conf) s.glog,
+       (grun c02Regions (G.init c02Regions s0.conf) s.glog).clean))
+    = some (.cons (.name [1, 2, 3]) (.cons (.name [1, 4, 6]) .nil), 2, false, true) := by decide
+
+example : ((NSt.init c02Stale).bind fun s0 => (nrunHistory c02Script c02Stale 8 2 [0] s0).map fun s =>
+      nonLocalRun c02Stale (G.init c02Stale s0.conf) s.glog) = some true := by decide
 
 /-! ### order of exits and enters, closure of the entered part -/
 
